@@ -78,7 +78,7 @@ pub fn rr<S: Src, const NB: usize, const B: usize>(s: &mut S) {
 }
 
 pub fn bye<S: Src, const NS: usize, const B: usize>(s: &mut S) {
-    let reason = Text::<260>::draw_len(s, 260);
+    let reason = Text::<260>::draw_len_utf8(s, 260);
     let c = ByeCfg::<NS, 260>::draw_with(s, reason);
     packet_own::<S, _, B>(s, c.builder(), NS <= 31);
 }
@@ -102,7 +102,7 @@ pub fn unknown<S: Src>(s: &mut S) {
 
 fn draw_item<S: Src>(s: &mut S) -> ItemCfg<260> {
     let type_ = s.u8();
-    let value = Text::<260>::draw_len(s, 260);
+    let value = Text::<260>::draw_len_utf8(s, 260);
     let prefix = Blob::<260>::draw_len(s, 260);
     ItemCfg { type_, value, prefix }
 }
